@@ -58,6 +58,21 @@ pub fn families() -> Vec<Family> {
         v.push(fam(format!("quantize/form{}", f), each(&|w| Op::Quantize { a: (w, 0), q: (10, 0), form: f })));
         v.push(fam(format!("quantize/frac/form{}", f), each(&|w| Op::Quantize { a: (w, 3), q: (1, 2), form: f })));
     }
+    // the 256-bit paths (product / shifted dividend exceeds i128): the value
+    // is Q + w/10 with a huge Q, so the same witnesses decide the rounding
+    let big30 = 10i128.pow(30);
+    let big22 = 10i128.pow(22);
+    let wide = |w: i128, base: i128| if w < 0 { -(base + w.abs()) } else { base + w };
+    for f in 0..4u8 {
+        v.push(fam(format!("mul/wide/form{}", f), each(&|w| Op::Mul { a: (wide(w, big30), 18), b: (10i128.pow(9), 10), form: f })));
+        v.push(fam(format!("mul_rounded/wide/form{}", f), each(&|w| Op::MulRounded { a: (wide(w, big30), 18), b: (10i128.pow(9), 10), n: 18, form: f })));
+        v.push(fam(format!("div/wide/form{}", f), each(&|w| Op::Div { a: (wide(w, big22), 0), b: (10i128.pow(19), 0), form: f })));
+        v.push(fam(format!("checked_div/wide/form{}", f), each(&|w| Op::CheckedDiv { a: (wide(w, big22), 0), b: (10i128.pow(19), 0), form: f })));
+        v.push(fam(format!("div_rounded/wide/form{}", f), each(&|w| Op::DivRounded { a: (wide(w, big22), 0), b: (10i128.pow(19), 0), n: 18, form: f })));
+    }
+    v.push(fam("div_di/wide/i128".into(), each(&|w| Op::DivDI { a: (wide(w, big22), 0), i: Int { ty: IntTy::I128, v: 10i128.pow(19) }, form: 0 })));
+    v.push(fam("div_id/wide/i128".into(), each(&|w| Op::DivID { i: Int { ty: IntTy::I128, v: wide(w, big22) }, b: (10i128.pow(19), 0), form: 0 })));
+    v.push(fam("div_rounded_di/wide/i128".into(), each(&|w| Op::DivRoundedDI { a: (wide(w, big22), 0), i: Int { ty: IntTy::I128, v: 10i128.pow(19) }, n: 18, form: 0 })));
     for ty in INT_TYS {
         let i10 = Int { ty, v: 10 };
         let i1 = Int { ty, v: 1 };
